@@ -7,7 +7,7 @@ from hypothesis import strategies as st
 
 from . import gen_cmake as G
 
-CMAKE_NAMES = ["a.cmake", "b.cmake", "zeta.cmake", "d.e.cmake", "x-y.cmake", "Mod_1.cmake", "pre_one.cmake", "pre_two.cmake",
+CMAKE_NAMES = ["a.cmake", "..cmake", "b.cmake", "zeta.cmake", "d.e.cmake", "x-y.cmake", "Mod_1.cmake", "pre_one.cmake", "pre_two.cmake",
                "ax.cmake", "bx.cmake", "Zeta.cmake", "w.cmake.cmake", "c.cmake-3.cmake", "in.util.cmake", "pfx.core.cmake", "tool.cmake", ".impl.cmake", "_private.cmake", "x.cmake", "d.cmake",
                "cafe\u0301.cmake", "g++ (2).cmake", "a+b.cmake", "x$y^z.cmake", "v1,v2.cmake", "v2.cmake", "L" * 248 + ".cmake"]   # the last: at the name length limit
 MIXED_NAMES = ["up.CMAKE", "Mix.CMake", "w.Cmake"]
